@@ -153,3 +153,143 @@ PLANS["C18"] = dict(
     assumptions=["execve delivers argv byte for byte and process-wrap's ProcessGroup / ProcessSession / KillOnDrop do what they document: validated by the real spawns, not proved"],
     partial="OS behaviour (execve fidelity, effect of the group/session wrappers) is validated by real spawns, not proved",
 )
+
+# ------------------------------------------------------------------------------------------------
+# glob family: C03 ignore files, C11 globset filterer, C14 discovery
+
+import os, subprocess
+
+def glob_base_stream(pid, ctx):
+    n = 60000 if ctx["thorough"] else 8000
+    s = simple_stream(pid, "glob", "lib", "wxglob", [ctx["seed"], n], ["glob"],
+                      nontrivial=lambda c, obs: obs != "none", classify=lambda c, obs: [obs.split(":")[0], "mode-" + c.split("\t")[3]])
+    s.note = ("validation of the glob matcher model against the real `ignore` crate: 35 pattern shapes (classes, every ** position, escapes, trailing space, "
+              "non-ASCII), three roots, files and directories, matched and matched_path_or_any_parents")
+    return s
+
+def second_pass(pid, name, rewrite, driver_args):
+    """run the driver again on rewritten case lines (used for spec / oracle evaluation); returns list of lines"""
+    d = core.WORK / pid / name
+    cases = core.read_lines(d / "cases.txt")
+    with open(d / "cases2.txt", "w") as f:
+        for c in cases: f.write(rewrite(c) + "\n")
+    ok, err = core.run_driver(driver_args, d / "cases2.txt", d / "spec.txt")
+    return core.read_lines(d / "spec.txt") if ok else None
+
+def c03_streams(ctx):
+    n = 20000 if ctx["thorough"] else 2500
+    def prefix_sibling(c):
+        # a probe is non-trivial when some ignore file's directory is a STRING prefix but not a component ancestor of it
+        f = c.split("\t")
+        keys = [x.split("\x1e")[0] for x in f[3].split("\x1d") if x]
+        for pr in f[4].split("\x1d"):
+            p = pr.split("\x1e")[0]
+            for k in keys:
+                if k != "-" and p.startswith(k) and not (p == k or p.startswith(k + "/")): return True
+        return False
+    def classify(c, obs):
+        k = ["mode-" + c.split("\t")[2]]
+        if obs != "error":
+            for r in obs.split(";"): k.append("verdict-" + r.split(":")[0].split("/")[0])
+        if prefix_sibling(c): k.append("prefix-sibling-probe")
+        return k
+    s = simple_stream("C03", "ignore-filter", "lib", "wxignore", [ctx["seed"], n], ["glob"],
+                      nontrivial=lambda c, obs: prefix_sibling(c), classify=classify)
+    s.note = ("1-4 ignore files at prefix-related directories (a/ab, test/tests, x.d/x.d2) or global, built by IgnoreFilter::new (same-directory files included, some padded so "
+              "that read completion order differs from listed order) or by successive add_file; six probes each, inside and outside the origin, files and directories; "
+              "real match_path + check_dir vs the model (repaired lookup). Oracle: 'is it ignored' vs the component-wise specification, unspecified case excluded")
+    # oracle pass: the component-wise specification on the same constructions
+    spec = second_pass("C03", "ignore-filter", lambda c: "\t".join((lambda f: f[:2] + ["spec" if f[2] == "new" else "specadd"] + f[3:])(c.split("\t"))), ["glob"])
+    if spec is None:
+        s.error = "spec pass of the driver failed"
+    elif not s.error:
+        impl = core.read_lines(core.WORK / "C03" / "ignore-filter" / "impl.txt")
+        cases = core.read_lines(core.WORK / "C03" / "ignore-filter" / "cases.txt")
+        for i, (c, im, sp) in enumerate(zip(cases, impl, spec)):
+            if im == "error" or sp == "error": continue
+            for j, (a, b) in enumerate(zip(im.split(";"), sp.split(";"))):
+                if b == "unspecified": continue
+                ign_impl = a.startswith("ignore:")
+                ign_spec = b.startswith("ignore:")
+                if ign_impl != ign_spec:
+                    probe = c.split("\t")[4].split("\x1d")[j].split("\x1e")
+                    s.oracle_failures.append((i, c, im, f"probe {probe[0]} (dir={probe[1]}): the code says {'ignored' if ign_impl else 'not ignored'} ({a}), git-style evaluation of its ancestors' files says {'ignored' if ign_spec else 'not ignored'} ({b})"))
+                    break
+    return [s, glob_base_stream("C03", ctx)]
+
+PLANS["C03"] = dict(
+    modules=["Wx.Glob.C03", "Wx.Glob.IgnoreFilterC", "Wx.Glob.Prefix"],
+    theorems=["Sp.IF.matchPathC_eq_spec", "Sp.C03.go_eq_spec", "Sp.C03.spec_congr", "Sp.C03.spec_keys_congr", "Sp.C03.scoping_law", "Sp.C03.goOld_ne_spec",
+              "Sp.C03.ancestor_spec", "Sp.Pfx.body_prefix_shape", "Sp.IF.splitComps_ok"],
+    bins=[("lib", ["wxignore", "wxglob"])],
+    streams=c03_streams,
+    sources=["crates/ignore-files/src/filter.rs", "crates/filterer/ignore/src/lib.rs"],
+    rule="a case is one filter construction with six probes; non-trivial = some ignore file's directory is a string prefix but not an ancestor of a probe (prefix-sibling probe); distinct by (construction, observation)",
+    assumptions=["radix_trie::get_ancestor returns the longest key that is a string prefix (modelled)", "the ignore crate's gitignore matching is modelled in Wx/Glob/Glob.lean and validated by the glob stream; the theorems are parametric in the per-node verdict function",
+                 "tokio file reads: only the order in which same-directory files are applied matters (listed order)"],
+)
+
+def c11_streams(ctx):
+    n = 20000 if ctx["thorough"] else 3000
+    def classify(c, obs):
+        f = c.split("\t")
+        k = [("filters" if f[2] else "no-filters"), ("ignores" if f[3] else "no-ignores"), ("exts" if f[6] else "no-exts"), ("whitelist" if f[4] else "no-whitelist")]
+        for v in obs.split(";"): k.append("verdict-" + v)
+        return k
+    s = simple_stream("C11", "globset", "lib", "wxglobset", [ctx["seed"], n], ["glob"],
+                      nontrivial=lambda c, obs: "true" in obs and "false" in obs, classify=classify)
+    s.note = ("random GlobsetFilterer configurations (filters, ignores, whitelist, ignore files, extensions) x 6 events (0-3 paths, file/dir/unknown, inside and outside the "
+              "origin): real check_event vs the abstract decision of Wx/Glob/C11.lean instantiated with the concrete matcher (checkEventC), i.e. the right-hand side of the documented rule")
+    return [s, glob_base_stream("C11", ctx)]
+
+PLANS["C11"] = dict(
+    modules=["Wx.Glob.C11", "Wx.Glob.C11Inst"],
+    theorems=["Sp.C11.no_paths_pass", "Sp.C11.whitelisted_pass", "Sp.C11.igf_rejects", "Sp.C11.check_iff", "Sp.C11.wanted_iff", "Sp.C11.wanted_empty",
+              "Sp.C11.ignore_precedence", "Sp.C11.verdict_append", "Sp.C11.verdict_insert", "Sp.C11.ignore_monotone", "Sp.C11.empty_passes",
+              "Sp.GS.c11_no_paths", "Sp.GS.c11_whitelisted", "Sp.GS.c11_empty_config"],
+    bins=[("lib", ["wxglobset", "wxglob"])],
+    streams=c11_streams,
+    sources=["crates/filterer/globset/src/lib.rs", "crates/filterer/ignore/src/lib.rs"],
+    rule="a case is one filterer configuration with six events; non-trivial = the six verdicts are not all equal; distinct by (configuration, observation)",
+    assumptions=["the glob matcher, Path::extension and the ignore-file layer are parameters of the theorems (Env); their concrete models are validated by the streams"],
+)
+
+def c14_streams(ctx):
+    n = 6000 if ctx["thorough"] else 700
+    def classify(c, obs):
+        f = c.split("\t")
+        k = ["found=" + str(min(len([x for x in obs.split(";") if x]), 5)), ("watch-list" if f[2] else "no-watch-list"), ("explicit" if f[5] else "no-explicit")]
+        for v in (".git", ".hg", ".svn", "_darcs", ".bzr", ".pijul", ".fossil-settings"):
+            if f[1] + "/" + v + "\x1e" in f[3] or "\x1f" + f[1] + "/" + v in f[3]: k.append("origin-has-" + v)
+        return k
+    s = simple_stream("C14", "discover", "lib", "wxdiscover", [ctx["seed"], n], ["glob"],
+                      nontrivial=lambda c, obs: ";" in obs, classify=classify, timeout=3000)
+    s.note = ("random trees on disk (depth <= 3, prefix-related names, every VCS metadata directory name at the origin and deeper, empty ignore files, origin-level VCS files, "
+              "watch lists, explicit ignore files); the model is fed the real read_dir order; ordered result list of the real from_origin vs the model walker; oracle: the "
+              "result set (minus explicit files) equals the specification (files of directories reachable without entering a directory its proper ancestors' files ignore)")
+    spec = second_pass("C14", "discover", lambda c: "DSPEC" + c[4:], ["glob"])
+    if spec is None:
+        s.error = "spec pass of the driver failed"
+    elif not s.error:
+        d = core.WORK / "C14" / "discover"
+        for i, (c, im, sp) in enumerate(zip(core.read_lines(d / "cases.txt"), core.read_lines(d / "impl.txt"), spec)):
+            f = c.split("\t")
+            explicit = set(f[5].split("\x1f")) if f[5] else set()
+            got = sorted(set(x.split("@")[0] for x in im.split(" ERRS=")[0].split(";") if x) - explicit)
+            exp = sorted(x for x in sp.split(";") if x)
+            if got != exp:
+                miss = [x for x in exp if x not in got]; extra = [x for x in got if x not in exp]
+                s.oracle_failures.append((i, c, im, f"discovery result differs from the specification: missing {miss} unexpected {extra}"))
+    return [s]
+
+PLANS["C14"] = dict(
+    modules=["Wx.Disc.C14", "Wx.Disc.C14wf", "Wx.Glob.C03"],
+    theorems=["Dw.visit_spec", "Dw.sv_order", "Dw.sv_sound", "Dw.sv_complete", "Dw.visit_spec'", "Sp.C03.scoping_law"],
+    bins=[("lib", ["wxdiscover"])],
+    streams=c14_streams,
+    sources=["crates/ignore-files/src/discover.rs", "crates/ignore-files/src/filter.rs"],
+    rule="a case is one directory tree on disk with its ignore files; non-trivial = at least two ignore files discovered; distinct by (tree, observation)",
+    assumptions=["read_dir / file_type / find_file (regular and non-empty) are inputs of the model (the real listing order is recorded and fed to it)",
+                 "the walker theorems are about the structural recursion of Wx/Disc/Walk.lean (filter as a parameter with the scoping law proved in C03); that the real stack walk is this recursion is validated by the discover stream, not proved"],
+    partial="walker = specification is proved for the structural-recursion model with the filter as a parameter; the stack-and-skip-list code is tied to it by correspondence only",
+)
